@@ -46,6 +46,8 @@ ASSUMPTIONS = ["tables are written through cherab.openadas.repository.update_* (
                "tables have log-slopes <= ~3 per decade and knot spacing >= 0.1 decade so that permitted "
                "extrapolation one decade out stays inside the double range",
                "arguments are finite doubles (no NaN / inf)"]
+ASAN_MODULES = ['cherab.openadas.rates.atomic', 'cherab.openadas.rates.pec', 'cherab.openadas.rates.beam', 'cherab.openadas.rates.cx', 'cherab.openadas.rates.radiated_power']
+ASAN = dict(cases=400, workers=8, timecap=240)
 QUICK = dict(cases=700, workers=2, timecap=45)
 THOROUGH = dict(cases=24000, workers=16, timecap=600)
 REQUIRED = {"knot": 60000, "nonneg": 60000, "nonpositive": 8000, "range_raise": 6000, "range_finite": 6000,
